@@ -101,7 +101,7 @@ Definition default_sem (tb : tables) (t : trait) (self : calls) : calls := fun m
 (** One inner value: Box / Arc / Some / reload / Box<dyn> / Arc<dyn> (and Identity, which has no inner value). *)
 Definition fwd_sem (tb : tables) (w : wrapper) (inner : calls) (self : calls) : calls := fun m a =>
   match row tb w m with
-  | Fwd | FwdLock _ | FwdOpt _ => inner m a
+  | Fwd | FwdLock _ | FwdOpt _ | FwdTryLock _ => inner m a     (* single-threaded: the lock is never busy; see ReloadConc.v *)
   | Missing => default_sem tb (wrapper_trait w) self m a
   | Const l => ([], lit_res l a)
   | _ => poison
@@ -269,7 +269,7 @@ Definition dc_of (tb : tables) (w : wrapper) : option dcast :=
   end.
 Definition none_through (tb : tables) (w : wrapper) (inner_none : bool) : bool :=
   match dc_of tb w with
-  | Some DcFwd | Some DcSelfOrFwd | Some DcReload | Some DcOption => inner_none
+  | Some DcFwd | Some DcSelfOrFwd | Some DcReload | Some DcReloadTry | Some DcOption => inner_none
   | _ => false
   end.
 Definition none_itself (tb : tables) (w : wrapper) : bool :=
